@@ -98,7 +98,9 @@ func goMapDefineOwnProperty(obj *object, name string, descriptor property, throw
 	if descriptor.mode != 0o111 {
 		return obj.runtime.typeErrorResult(throw)
 	}
-	if !descriptor.isDataDescriptor() {
+	value, ok := descriptor.value.(Value)
+	if !ok {
+		// An accessor, or attributes without a value: a Go map holds plain values.
 		return obj.runtime.typeErrorResult(throw)
 	}
 	if goObj.value.IsNil() {
@@ -109,7 +111,7 @@ func goMapDefineOwnProperty(obj *object, name string, descriptor property, throw
 		}
 		goObj.value.Set(reflect.MakeMap(goObj.value.Type()))
 	}
-	goObj.value.SetMapIndex(goObj.toKey(name), goObj.toValue(descriptor.value.(Value)))
+	goObj.value.SetMapIndex(goObj.toKey(name), goObj.toValue(value))
 	return true
 }
 
